@@ -31,7 +31,7 @@ KINDS = ["def", "def-decorated", "class", "if", "elif", "else", "for", "while", 
 
 
 def floors(tier):
-    return {"evals": 200 if tier == "quick" else 4000, "distinct": 120,
+    return {"evals": 200 if tier == "quick" else 2000, "distinct": 120,
             "classes": {**{f"marker:{k}": 6 for k in KINDS if k not in ("def-decorated", "class", "try-else")}, "marker:def-decorated": 2, "marker:class": 2,
                         "marker:try-else": 3, "style:no_cover": 8, "style:only_cover": 8, "auto:__main__": 100, "auto:TYPE_CHECKING": 100,
                         "inline-markers-disabled": 6}}
@@ -183,6 +183,19 @@ def _one(ctx, prog, ann, modname, scratch, calls, materialise, rng, disable_inli
             return
     must = {ln for ln in executed if ln not in excluded and (only_lines is None or ln in only_lines)}
     missing = sorted(must - goal_lines)
+    if missing and only_lines is not None:
+        # the other face of the unresolved-name finding: an only_cover target that is defined inside a control-flow statement is not
+        # found, so (when other names of the list do resolve) its own lines are left out of cover
+        parents = {}
+        for par in _ast.walk(_tree):
+            for ch in _ast.iter_child_nodes(par):
+                parents[ch] = par
+        unresolved = [t for t in targets if not isinstance(parents.get(t), (_ast.Module, _ast.FunctionDef, _ast.AsyncFunctionDef, _ast.ClassDef))]
+        if unresolved and all(any(t.lineno <= ln <= (t.end_lineno or t.lineno) for t in unresolved) for ln in missing):
+            ctx.witness("executed-line-outside-excluded-code-not-a-goal:only_cover-name:scope-defined-inside-control-flow-statement",
+                        f"only_cover={ann['only_cover']}: lines {missing[:8]} of a requested scope are not line goals; e.g. {missing[0]}: "
+                        f"{src_lines[missing[0] - 1].strip()[:70]!r}", case)
+            return
     if missing:
         ln = missing[0]
         near = [m for m in eff_marked if abs(m - ln) <= 12]
